@@ -32,6 +32,9 @@ pub enum StallPoint {
 pub enum Scenario {
     /// the server stalls (silently, or dripping one byte every `drip_ms` ms when > 0) at the given point
     Stall { point: StallPoint, drip_ms: u8 },
+    /// the server goes silent at a point inside the body for longer than the read timeout, then drips one byte every `drip_ms`
+    /// ms; the caller reads again after each read-timeout error for as long as the overall deadline has not passed
+    StallThenDrip { point: StallPoint, stall_ms: u16, drip_ms: u8 },
     /// redirect chain: every hop answers after `delay_ms`; the hops together exceed the overall timeout
     SlowChain { delay_ms: u16 },
     /// the response completes at once; then further reads, each after a wait
@@ -115,6 +118,8 @@ struct Observed {
     eof_at_ms: Option<u128>,
     /// the client was still busy long after every timeout and had to be freed by closing the peers
     hung: bool,
+    /// reads issued again after a read error that came before the overall deadline
+    repolls: u32,
 }
 
 fn install_sched(sched: &[(u8, u8)]) {
@@ -164,10 +169,21 @@ fn client_part(case: &Case, url: &str, upload: bool, t0: Instant, obs: &mut Obse
                         }
                         Ok(n) => obs.delivered += n,
                         Err(e) => {
+                            if matches!(case.scenario, Scenario::StallThenDrip { .. }) && t0.elapsed() < Duration::from_millis(case.t_ms as u64) {
+                                // a per-read timeout before the overall deadline: this caller tries again
+                                obs.repolls += 1;
+                                std::thread::sleep(Duration::from_millis(5));
+                                continue;
+                            }
                             obs.err_after_ms = Some(t0.elapsed().as_millis());
                             obs.err_text = format!("read: {:?} {e}", e.kind());
                             break;
                         }
+                    }
+                    if matches!(case.scenario, Scenario::StallThenDrip { .. }) && t0.elapsed() > Duration::from_millis(case.t_ms as u64 + 2500) {
+                        obs.err_after_ms = Some(t0.elapsed().as_millis());
+                        obs.err_text = "reads were still succeeding 2.5 s after the overall deadline".into();
+                        break;
                     }
                     if t0.elapsed() > Duration::from_secs(20) {
                         obs.err_text = "gave up after 20 s".into();
@@ -208,6 +224,10 @@ fn run_once(case: &Case) -> Result<Observed, String> {
             }
             s.push(Step::Stall);
             (vec![s], *point == StallPoint::Upload)
+        }
+        Scenario::StallThenDrip { point, stall_ms, drip_ms } => {
+            let (prompt, rest) = split_response(*point);
+            (vec![vec![Step::ReadRequest, Step::Send(prompt), Step::SleepMs(*stall_ms as u64), Step::Drip { bytes: rest, every_ms: *drip_ms as u64 }, Step::Stall]], false)
         }
         Scenario::SlowChain { delay_ms } => {
             let hop = vec![Step::ReadRequest, Step::SleepMs(*delay_ms as u64), Step::Send(b"HTTP/1.1 307 Next\r\nLocation: /next\r\nContent-Length: 0\r\n\r\n".to_vec()), Step::Close];
@@ -261,6 +281,7 @@ fn run_once(case: &Case) -> Result<Observed, String> {
             extra: vec![],
             eof_at_ms: None,
             hung: false,
+            repolls: 0,
         };
         client_part(case, &url, upload, t0, &mut obs, if tunnel { Some(proxy_port) } else { None });
         let _ = tx.send(obs);
@@ -369,6 +390,9 @@ labelled points of the watchdog / reader (verif-hooks H3). Oracle S1-S4. non-tri
             v.push(Case { scenario: Scenario::Complete { framing, payload: 500, extra_reads: vec![(10, 0), (10, 400), (1, 0)] }, t_ms: 250, r_ms: 5000, reads: vec![100], sched: vec![], tunnel: false });
             v.push(Case { scenario: Scenario::Complete { framing, payload: 0, extra_reads: vec![(64, 350)] }, t_ms: 200, r_ms: 5000, reads: vec![4096], sched: vec![], tunnel: false });
         }
+        for p in [StallPoint::AfterHead, StallPoint::InLengthBody, StallPoint::InCloseBody] {
+            v.push(Case { scenario: Scenario::StallThenDrip { point: p, stall_ms: 270, drip_ms: 30 }, t_ms: 700, r_ms: 150, reads: vec![4096], sched: vec![], tunnel: false });
+        }
         v.push(Case { scenario: Scenario::SlowChain { delay_ms: 80 }, t_ms: 300, r_ms: 5000, reads: vec![4096], sched: vec![], tunnel: false });
         v.push(Case { scenario: Scenario::SlowChain { delay_ms: 120 }, t_ms: 400, r_ms: 200, reads: vec![4096], sched: vec![], tunnel: false });
         // the same stalls inside a CONNECT tunnel (TLS between the client and the stalling origin)
@@ -404,6 +428,8 @@ labelled points of the watchdog / reader (verif-hooks H3). Oracle S1-S4. non-tri
         let scenario = prop_oneof![
             6 => (point, prop_oneof![2 => Just(0u8), 1 => 15u8..60]).prop_map(|(point, drip_ms)| Scenario::Stall { point, drip_ms }),
             1 => (60u16..150).prop_map(|delay_ms| Scenario::SlowChain { delay_ms }),
+            1 => (prop_oneof![Just(StallPoint::AfterHead), Just(StallPoint::InLengthBody), Just(StallPoint::InCloseBody), Just(StallPoint::InChunkData)], 15u8..60)
+                .prop_map(|(point, drip_ms)| Scenario::StallThenDrip { point, stall_ms: 0, drip_ms }),
             5 => (0u8..3, prop_oneof![Just(0u16), 1u16..3000], proptest::collection::vec((1u16..5000, prop_oneof![3 => Just(0u16), 1 => 100u16..600]), 0..6))
                 .prop_map(|(framing, payload, extra_reads)| Scenario::Complete { framing, payload, extra_reads }),
         ];
@@ -434,6 +460,14 @@ labelled points of the watchdog / reader (verif-hooks H3). Oracle S1-S4. non-tri
                     _ => (t_ms, r_ms),
                 };
                 let r_ms = if t_ms == 0 { r_ms.min(200) } else { r_ms };
+                // silence a little longer than the read timeout, inside an overall timeout that leaves room for it
+                let (scenario, t_ms, r_ms, tunnel) = match scenario {
+                    Scenario::StallThenDrip { point, drip_ms, .. } => {
+                        let r = 100 + r_ms % 100;
+                        (Scenario::StallThenDrip { point, stall_ms: r + 120, drip_ms }, 600 + t_ms % 300, r, false)
+                    }
+                    s => (s, t_ms, r_ms, tunnel),
+                };
                 // the schedule perturbation is meaningful for the schedule-independent halves only (see check)
                 let sched = if matches!(scenario, Scenario::SlowChain { .. }) { vec![] } else { sched };
                 // the TLS handshake of the tunnel eats into a short overall timeout: give tunnelled cases a little more
@@ -467,8 +501,14 @@ labelled points of the watchdog / reader (verif-hooks H3). Oracle S1-S4. non-tri
                 ctx.label("re-measured");
                 continue;
             }
+            let stall_view = match &case.scenario {
+                Scenario::Stall { point, drip_ms } => Some((point, drip_ms, false)),
+                Scenario::StallThenDrip { point, drip_ms, .. } => Some((point, drip_ms, true)),
+                _ => None,
+            };
             match &case.scenario {
-                Scenario::Stall { point, drip_ms } => {
+                Scenario::Stall { .. } | Scenario::StallThenDrip { .. } => {
+                    let (point, drip_ms, repoll) = stall_view.unwrap();
                     // never a clean end: the server never finished the response
                     if obs.clean_eof && *point != StallPoint::InCloseBody {
                         return Outcome::fail("C13:cut-body-reported-complete", describe);
@@ -505,6 +545,7 @@ labelled points of the watchdog / reader (verif-hooks H3). Oracle S1-S4. non-tri
                     });
                     ctx.label_if(*drip_ms > 0, "drip");
                     ctx.label_if(t == 0, "read-timeout-only");
+                    ctx.label_if(repoll && obs.repolls > 0, "caller-read-again-after-read-timeout");
                 }
                 Scenario::SlowChain { delay_ms } => {
                     ctx.nontrivial = true;
